@@ -30,7 +30,10 @@ Clauses, whenever apply_user_actions raised:
   C04.engine_usable      a following Calculate does not raise and returns no stored actions; and,
                          once all faults of the bundle have been tried, the engine still gives the
                          bundle the same outcome (exception type or resulting snapshot and stored
-                         actions) as the shadow engine that never saw a fault
+                         actions) as the shadow engine, which runs the same history with neither
+                         the injected faults nor the monitor's probing Calculates (a silent
+                         Calculate must be a no-op: a difference shows state a failed bundle left
+                         behind)
 """
 import copy, json, os, re, sys
 sys.path.insert(0, os.path.dirname(os.path.dirname(os.path.abspath(__file__))))
@@ -167,13 +170,20 @@ def formula_columns(e):
   return {(tid, cid) for tid, t in e.schema.items() for cid, c in t.columns.items() if c.isFormula}
 
 
-def diff_kind(e, a, b):
-  """'unchanged' | 'only formula cells differ' | 'data or metadata differ'"""
+def diff_kind(e, a, b, trigger=False):
+  """'unchanged' | 'only formula cells differ' | 'data or metadata differ'
+  (with trigger=True also 'only trigger-formula cells differ')"""
   cells = C02.changed_cells(a, b)
   if not cells: return "unchanged"
   fc = formula_columns(e)
-  if all(len(c) == 3 and c[1] not in ("*row", "*col") and (c[0], c[2]) in fc for c in cells):
+  plain = lambda c: len(c) == 3 and c[1] not in ("*row", "*col")
+  if all(plain(c) and (c[0], c[2]) in fc for c in cells):
     return "only formula cells differ"
+  if trigger:
+    tc = {(tid, cid) for tid, t in e.schema.items() for cid, c in t.columns.items()
+          if not c.isFormula and c.formula}
+    if all(plain(c) and (c[0], c[2]) in (fc | tc) for c in cells):
+      return "only trigger-formula cells differ"
   return "data or metadata differ"
 
 
@@ -201,8 +211,11 @@ def failure_clauses(e, pre, label):
             if not c.isFormula and c.formula}
       updates = all(a[0] in ("UpdateRecord", "BulkUpdateRecord") for a in stored)
       cols = {(a[1], c) for a in stored for c in a[3]} if updates else set()
+      summaries = {t["tableId"] for t in eng.meta_records(e, "_grist_Tables") if t["summarySourceTable"]}
       if updates and cols <= fc: sig["calculate"] = "rewrites formula cells"
       elif updates and cols <= (fc | tc): sig["calculate"] = "writes trigger-formula cells"
+      elif all(a[0] in ("RemoveRecord", "BulkRemoveRecord") and a[1] in summaries for a in stored):
+        sig["calculate"] = "removes summary rows"
       else: sig["calculate"] = "emits " + "+".join(sorted(set(a[0] for a in stored)))
       out.append(("C04.engine_usable", dict(label, calculate_stored=stored[:6])))
     else:
@@ -389,10 +402,12 @@ class C04Monitor(explore.Monitor):
       return [("C04.engine_usable", dict(label, problem="after the injected faults the bundle "
                "ends differently than on the shadow engine", shadow=nat["raised"], monitored=mine))]
     if exc is None:
-      d = eng.diff_snapshots(nat["snapshot"], snapshot(e))
+      mine_snap = snapshot(e)
+      d = eng.diff_snapshots(nat["snapshot"], mine_snap)
       if d:
-        return [("C04.engine_usable", dict(label, problem="after the injected faults the bundle "
-                 "gives a different document than on the shadow engine", diff=d))]
+        return [("C04.engine_usable", dict(label, problem="the bundle gives a different document "
+                 "than on the shadow engine (%s)" % diff_kind(e, nat["snapshot"], mine_snap, True),
+                 diff=d))]
       if eng.stored_reprs(group) != nat["stored"]:
         return [("C04.engine_usable", dict(label, problem="after the injected faults the bundle "
                  "emits different stored actions than on the shadow engine"))]
